@@ -9,6 +9,7 @@ from __future__ import annotations
 import numpy as np
 
 from pv import core
+from pv.gen import c09_axes as AX
 from pv.ref import c09_oracle as O
 
 ATTRS = ['background', 'background_rms', 'background_mesh', 'background_rms_mesh',
@@ -26,20 +27,38 @@ def _read(obj, attr):
     return getattr(obj, attr)
 
 
-def gen_config(rng, thr_cls):
+def gen_config(case, thr_cls):
+    rng = case.rng
     import astropy.units as u
     from astropy.stats import SigmaClip
     from photutils.background import (BkgIDWInterpolator, BkgZoomInterpolator, MeanBackground,
                                       MedianBackground, MADStdBackgroundRMS, SExtractorBackground,
                                       StdBackgroundRMS)
-    ny, nx = int(rng.integers(18, 49)), int(rng.integers(18, 49))
-    by = int(rng.integers(4, max(5, ny // 3) + 1))
-    bx = int(rng.integers(4, max(5, nx // 3) + 1))
+    ny, nx = AX.image_shape(case, 18, 49, 'shape_bkg')
+    by = int(rng.integers(min(3, ny), min(ny, max(5, ny // 3)) + 1))
+    bx = int(rng.integers(min(3, nx), min(nx, max(5, nx // 3)) + 1))
+    degenerate = None
+    r = rng.random()
+    if r < 0.05:
+        degenerate, by, bx = 'single_box', ny, nx
+    elif r < 0.1:
+        degenerate = 'constant_image'
+    elif r < 0.14:
+        degenerate = 'single_mesh_row'
+        by = ny
+    if degenerate:
+        case.note('axis:degenerate_bkg:' + degenerate)
+    mag = AX.scale(case, 'magnitude_bkg')
+    lay_d, lay_m = AX.layout(case, 'layout_bkg_data'), AX.layout(case, 'layout_bkg_mask')
+    box_form = int(rng.integers(0, 5))      # tuple, list, ndarray, numpy ints, scalar when square
+    case.note('axis:box_size_form:' + ['tuple', 'list', 'ndarray', 'np_int_tuple', 'scalar_if_square'][box_form])
     yy, xx = np.mgrid[0:ny, 0:nx]
     grad = rng.normal(0, 0.3, 2)
     data = 10.0 + grad[0] * yy + grad[1] * xx + rng.normal(0, 1.0, (ny, nx))
+    if degenerate == 'constant_image':
+        data = np.full((ny, nx), 10.0)
     # a few bright sources so that the meshes are not flat
-    for _ in range(int(rng.integers(0, 4))):
+    for _ in range(int(rng.integers(0, 4)) if degenerate != 'constant_image' else 0):
         y0, x0 = rng.uniform(0, ny), rng.uniform(0, nx)
         data += rng.uniform(20, 200) * np.exp(-((yy - y0) ** 2 + (xx - x0) ** 2) / (2 * rng.uniform(1, 3) ** 2))
     flags = {}
@@ -67,23 +86,36 @@ def gen_config(rng, thr_cls):
         dtype = 'f4'
     elif r < 0.2:
         dtype = 'i4'
-    unit = u.Jy if rng.random() < 0.25 else None
+    unit = [u.Jy, u.mJy, u.electron / u.s][int(rng.integers(0, 3))] if rng.random() < 0.25 else None
     sc = int(rng.integers(0, 3))
     est = int(rng.integers(0, 3))
     rest = int(rng.integers(0, 2))
-    fill = float(rng.choice([0.0, -1.0, np.nan]))
+    fill = float(rng.choice([0.0, -1.0, np.nan])) * (mag if rng.random() < 0.5 else 1.0)
+
+    data = data * mag
+
+    def box():
+        if box_form == 0:
+            return (by, bx)
+        if box_form == 1:
+            return [by, bx]
+        if box_form == 2:
+            return np.array([by, bx])
+        if box_form == 3:
+            return (np.int64(by), np.int32(bx))
+        return by if by == bx else (by, bx)
 
     def build(filter_threshold, filter_size=fs):
         d = data.copy()
         if dtype == 'f4':
             d = d.astype(np.float32)
         elif dtype == 'i4':
-            d = np.nan_to_num(d, nan=10.0).round().astype(np.int32)
+            d = np.nan_to_num(d / mag, nan=10.0).round().astype(np.int32)
+        d = lay_d(d)
         if unit is not None:
             d = d * unit
         from photutils.background import Background2D
-        kw = dict(mask=None if mask is None else mask.copy(),
-                  coverage_mask=None if cov is None else cov.copy(),
+        kw = dict(mask=lay_m(mask), coverage_mask=lay_m(cov),
                   fill_value=fill, exclude_percentile=excl, filter_size=filter_size,
                   filter_threshold=filter_threshold,
                   sigma_clip=[SigmaClip(sigma=3.0, maxiters=10), None, SigmaClip(sigma=2.5, maxiters=3)][sc],
@@ -91,7 +123,7 @@ def gen_config(rng, thr_cls):
                   bkgrms_estimator=[StdBackgroundRMS, MADStdBackgroundRMS][rest](sigma_clip=None),
                   interpolator=BkgZoomInterpolator() if interp == 'zoom' else
                   BkgIDWInterpolator(n_neighbors=int(rng_nn)))
-        return Background2D(d, (by, bx), **kw)
+        return Background2D(d, box(), **kw)
 
     rng_nn = int(rng.choice([3, 10]))
     params = dict(shape=[ny, nx], box=[by, bx], filter_size=list(fs), interp=interp, dtype=dtype,
@@ -102,7 +134,7 @@ def gen_config(rng, thr_cls):
 
 def run(case, thr_cls):
     rng = case.rng
-    build, params, digest, interp, fs = gen_config(rng, thr_cls)
+    build, params, digest, interp, fs = gen_config(case, thr_cls)
     # probe: the unfiltered mesh gives the range against which filter_threshold is placed
     try:
         probe = build(None, filter_size=(1, 1))
